@@ -430,8 +430,58 @@ func c14chain(rec *mon.Recorder, r *mon.Rand, k c14key, idx int) {
 	used, _ := cose.NewKeyFromPublic(&gen.ECKeyFromD(elliptic.P256(), big.NewInt(77)).PublicKey)
 	used.Ops = []cose.KeyOp{cose.KeyOpVerify}
 	used.ID = []byte("previous")
+	earlier := *used // a by-value copy taken before the variable is reused keeps the previous key
+	earlierHash := mon.DeepHashValue(earlier)
 	if guard(rec, "Key.UnmarshalCBOR(reused)", in, func() { err = used.UnmarshalCBOR(sb) }) {
 		return
+	}
+	if mon.DeepHashValue(earlier) != earlierHash {
+		fail("by-value-copy-of-a-key-changed-when-the-variable-was-decoded-into-again", nil)
+		return
+	}
+	// the compressed-point form of the same public key (y given as its sign bit): the x coordinate keeps
+	// its full length on the wire and the key survives a round trip unchanged
+	{
+		size := (k.pub.Curve.Params().BitSize + 7) / 8
+		crv := map[string]cose.Curve{"P-256": cose.CurveP256, "P-384": cose.CurveP384, "P-521": cose.CurveP521}[curve]
+		for _, xform := range []string{"trimmed", "full"} {
+			x := k.pub.X.Bytes()
+			if xform == "full" {
+				x = k.pub.X.FillBytes(make([]byte, size))
+			}
+			ck := &cose.Key{Type: cose.KeyTypeEC2, Params: map[any]any{cose.KeyLabelEC2Curve: crv, cose.KeyLabelEC2X: x, cose.KeyLabelEC2Y: k.pub.Y.Bit(0) == 1}}
+			var cb []byte
+			if guard(rec, "Key.MarshalCBOR(compressed point)", in, func() { cb, err = ck.MarshalCBOR() }) {
+				return
+			}
+			rec.Event("compressed-point-keys")
+			if err != nil {
+				rec.Event("compressed-point-keys:encoder-refused")
+				continue
+			}
+			n, perr := refcbor.Parse(cb)
+			if perr != nil || n.Major != refcbor.Map {
+				fail("compressed-point-key-unreadable", perr)
+				return
+			}
+			if xv := refcose.Lookup(n, -2); xv == nil || xv.Major != refcbor.Bstr || len(xv.Str) != size || new(big.Int).SetBytes(xv.Str).Cmp(k.pub.X) != 0 {
+				fail("compressed-point-key-x-not-full-length/"+xform, fmt.Errorf("x on the wire: %s, want %d octets", diagOr(xv), size))
+				return
+			}
+			if yv := refcose.Lookup(n, -3); yv == nil || yv.Major != refcbor.Prim || (yv.Arg != 20 && yv.Arg != 21) {
+				fail("compressed-point-key-y-not-a-bool/"+xform, nil)
+				return
+			}
+			var back cose.Key
+			if e := back.UnmarshalCBOR(cb); e != nil {
+				fail("compressed-point-key-own-encoding-refused/"+xform, e)
+				return
+			}
+			if cb2, e := back.MarshalCBOR(); e != nil || !eqBytes(cb2, cb) {
+				fail("compressed-point-key-second-encoding-differs/"+xform, e)
+				return
+			}
+		}
 	}
 	if err != nil {
 		fail("private-unmarshal-into-used-variable", err)
